@@ -2,7 +2,7 @@
 
 package frag
 
-// C03 parts "c03frag" / "c03fragx": hostile sequences against core/internal/frag.
+// C03 part "c03frag": hostile sequences against core/internal/frag.
 //
 // One real Defragger receives a generated SEQUENCE of hostile fragments (header fields chosen by
 // the peer: packet id, fragment id >= count, counts 0/1/2/255, changing counts under one id,
@@ -11,9 +11,10 @@ package frag
 // duplicated, and, after every burst, a well-formed canary message under a packet id the peer
 // has not used, which must come out byte for byte ("defragger-reset": hostile state was pending).
 // FragUDPMessage itself is driven over the (payload 0..65535, address length, limit) corners.
-// c03frag keeps to messages that need at most 255 fragments; c03fragx is the corner beyond
-// (the count does not fit the 8-bit field): there the sender must discard the message, it may not
-// crash (class panic) nor emit a wrapped fragment set (class frag-count-overflow).
+// Three runs in four keep to messages that need at most 255 fragments; the fourth is the corner
+// stratum beyond (the count does not fit the 8-bit field): there the sender must discard the
+// message, it may not crash (class panic) nor emit a wrapped fragment set (class
+// frag-count-overflow).
 
 import (
 	"bytes"
@@ -26,10 +27,8 @@ import (
 )
 
 func TestSim(t *testing.T) {
-	hysim.Main(t,
-		&hysim.Harness{Name: "c03frag", Gen: func(r *hysim.Rand, tier string) *hysim.Script { return genC03Frag(r, tier, false) }, Exec: execC03Frag},
-		&hysim.Harness{Name: "c03fragx", Gen: func(r *hysim.Rand, tier string) *hysim.Script { return genC03Frag(r, tier, true) }, Exec: execC03Frag},
-	)
+	// one run in four is the corner stratum: messages that need more than 255 fragments
+	hysim.Main(t, &hysim.Harness{Name: "c03frag", Gen: func(r *hysim.Rand, tier string) *hysim.Script { return genC03Frag(r, tier, r.Chance(1, 4)) }, Exec: execC03Frag})
 }
 
 func genC03Frag(r *hysim.Rand, tier string, corner bool) *hysim.Script {
@@ -253,7 +252,7 @@ func (w *c03FragWorld) fragCorner(addrLen, size, mode int, arg int64) {
 	}
 	need := c03Need(msg, limit)
 	if need > 255 && !w.corner {
-		// this part keeps to what the 8-bit count can express; c03fragx is the corner beyond it
+		// this stratum keeps to what the 8-bit count can express; the corner stratum goes beyond it
 		limit = hdr + per255
 		need = c03Need(msg, limit)
 		x.Probe("clamped-to-255-fragments")
